@@ -52,6 +52,8 @@ MAXSIZE = 100 * 1024
 # ---------------------------------------------------------------------------------------------- C server
 
 SERVER_MAIN = r"""
+/* One record = [u32 clen][u32 n][clen bytes]; answer = [u64 consumed][n bytes].  A sanitizer report or a signal ends
+   the process (the driver restarts it); forking per record was measured at 0.1 s/record under ASan and dropped. */
 static int read_full(void *p, size_t n) { return n == 0 || fread(p, 1, n, stdin) == n; }
 
 int main(void) {
@@ -142,7 +144,8 @@ class Server:
         env = dict(os.environ)
         env.pop("LD_PRELOAD", None)
         # symbolize=0: llvm-symbolizer costs seconds per report; the report kind and READ/WRITE are what is used
-        env["ASAN_OPTIONS"] = "detect_leaks=0:abort_on_error=0:allocator_may_return_null=1:symbolize=0"
+        env["ASAN_OPTIONS"] = ("detect_leaks=0:abort_on_error=0:allocator_may_return_null=1:symbolize=0:"
+                               "fast_unwind_on_fatal=1:malloc_context_size=0:print_legend=0:print_summary=0")
         env["UBSAN_OPTIONS"] = "halt_on_error=1:print_stacktrace=0:symbolize=0"
         self.proc = subprocess.Popen([self.exe], stdin=subprocess.PIPE, stdout=subprocess.PIPE, stderr=self.err, env=env)
 
@@ -179,7 +182,7 @@ class Server:
             head = body = None
         if head is None or body is None:
             try:
-                rc = self.proc.wait(timeout=30)
+                rc = self.proc.wait(timeout=60)
             except subprocess.TimeoutExpired:
                 self.proc.kill()
                 rc = self.proc.wait()
@@ -386,25 +389,50 @@ def _record(part, key, data, bucket, what, cls, nt, origin, case):
         part.violation(bucket, case, what)
 
 
+MAX_VIOLATIONS_PER_SHARD = 25      # a sanitizer abort costs a server restart (0.2-1 s); a mass failure must stay bounded
+
+
 def _fixed_shard(arg):
     exe, shard, nshards, quick = arg
     tree.activate_view()
     part = harness.Part()
     server = Server(exe)
     try:
-        for i, data in enumerate(_small_exhaustive()):
-            if i % nshards != shard:
-                continue
+        todo = [(data.hex(), data, "origin:exhaustive-small") for i, data in enumerate(_small_exhaustive()) if i % nshards == shard]
+        todo += [(["table", name], data, "origin:identifier-table")
+                 for i, (name, data) in enumerate(source_tables(os.environ["CYVERIF_VIEW"], quick)) if i % nshards == shard]
+        for k, (key, data, origin) in enumerate(todo):
+            if len(part.violations) >= MAX_VIOLATIONS_PER_SHARD:
+                part.count("cases_skipped_after_%d_violations_in_shard" % MAX_VIOLATIONS_PER_SHARD, len(todo) - k)
+                break
             bucket, what, cls, nt = evaluate(data, server)
-            _record(part, data.hex(), data, bucket, what, cls, nt, "origin:exhaustive-small", {"kind": "data", "hex": data.hex()})
-        for i, (name, data) in enumerate(source_tables(os.environ["CYVERIF_VIEW"], quick)):
-            if i % nshards != shard:
-                continue
-            bucket, what, cls, nt = evaluate(data, server)
-            _record(part, ["table", name], data, bucket, what, cls, nt, "origin:identifier-table", {"kind": "data", "hex": data.hex()})
+            _record(part, key, data, bucket, what, cls, nt, origin, {"kind": "data", "hex": data.hex()})
     finally:
         server.close()
     return part
+
+
+def _shrink(data, bucket, server, budget=70):
+    """Greedy chunk deletion keeping the same bucket (bounded: every failing evaluation may cost a server restart)."""
+    left = [budget]
+
+    def bad(x):
+        if left[0] <= 0 or not x:
+            return False
+        left[0] -= 1
+        return evaluate(x, server)[0] == bucket
+
+    size = len(data) // 2
+    while size >= 1 and left[0] > 0:
+        i = 0
+        while i < len(data) and left[0] > 0:
+            cand = data[:i] + data[i + size:]
+            if bad(cand):
+                data = cand
+            else:
+                i += size
+        size //= 2
+    return data
 
 
 def _prog_shard(arg):
@@ -412,32 +440,33 @@ def _prog_shard(arg):
     tree.activate_view()
     part = harness.Part()
     server = Server(exe)
-    excluded = set()
+    firsts = {}
     try:
-        for attempt in range(4):
-            def prop(program):
-                data, far = expand(program)
-                if not data:
-                    return
-                bucket, what, cls, nt = evaluate(data, server)
-                if far:
-                    cls = cls + ["copy-beyond-window"]
-                part.case(data.hex() if len(data) < 64 else hashlib.sha256(data).hexdigest(), nt, cls + ["origin:repeat-program"],
-                          sample={"origin": "repeat-program", "program": [list(map(_js, op)) for op in program][:6],
-                                  "size": len(data), "classes": sorted(set(cls))[:10]})
-                if bucket is not None and bucket not in excluded:
-                    raise AssertionError(bucket)
-            res = hyp.run_property(prop, programs, n, seed, "c12-prog", shard, attempt)
-            if res is None:
-                break
-            program, _ = res
+        def prop(program):
             data, far = expand(program)
+            if not data or len(part.violations) >= MAX_VIOLATIONS_PER_SHARD:
+                if data:
+                    part.count("cases_skipped_after_%d_violations_in_shard" % MAX_VIOLATIONS_PER_SHARD)
+                return
             bucket, what, cls, nt = evaluate(data, server)
-            if bucket is None:      # flaky?  cannot happen with a deterministic subject; keep the run honest
-                part.count("shrunk_case_not_reproduced")
-                break
-            part.violation(bucket, {"kind": "data", "hex": data.hex(), "program": [list(map(_js, op)) for op in program]}, what)
-            excluded.add(bucket)
+            if far:
+                cls = cls + ["copy-beyond-window"]
+            part.case(data.hex() if len(data) < 64 else hashlib.sha256(data).hexdigest(), nt, cls + ["origin:repeat-program"],
+                      sample={"origin": "repeat-program", "program": [list(map(_js, op)) for op in program][:6],
+                              "size": len(data), "classes": sorted(set(cls))[:10]})
+            if bucket is not None:
+                case = {"kind": "data", "hex": data.hex(), "program": [list(map(_js, op)) for op in program]}
+                part.violation(bucket, case, what)
+                if bucket not in firsts or len(data) < len(firsts[bucket]):
+                    firsts[bucket] = data
+        # generation only: Hypothesis' own shrinker would spend hundreds of evaluations, each a possible ASan abort
+        res = hyp.run_property(prop, programs, n, seed, "c12-prog", shard, shrink=False)
+        assert res is None, res
+        for bucket, data in sorted(firsts.items()):
+            small = _shrink(data, bucket, server)
+            b2, what, cls, nt = evaluate(small, server)
+            if b2 == bucket:
+                part.violations.insert(0, (bucket, {"kind": "data", "hex": small.hex()}, what))
     finally:
         server.close()
     return part
@@ -456,13 +485,14 @@ def _job(job):
 def run(ctx):
     view = os.environ["CYVERIF_VIEW"]
     exe = build_server(os.path.join(ctx.work, "c12"), view)
-    nprog = 260 if ctx.quick else 12000
+    nprog = 260 if ctx.quick else 8000
     jobs = []
     for s in range(16):
         jobs.append(("prog", (exe, ctx.seed, s, nprog)))
         jobs.append(("fixed", (exe, s, 16, ctx.quick)))
     ctx.pmap(_job, jobs)
-    ctx.exhaustive = True
+    ctx.violations.sort(key=lambda v: len(v[1].get("hex", "")))       # smallest case of each bucket becomes its replay
+    ctx.exhaustive = not ctx.violations
     ctx.extra["exhaustive_spaces"] = ["all strings of length 1..12 over {a,b} (8190)",
                                       "all strings of length 1..7 over {a,b,c} that contain c (3025)"]
     ctx.extra["exhaustive_note"] = "exhaustive = the listed tiny spaces were fully enumerated; everything else is sampled"
